@@ -390,7 +390,7 @@ impl Engine for HelpSim {
     fn runs(&self, tier: Tier) -> u64 {
         match tier {
             Tier::Quick => 40_000,
-            Tier::Thorough => 1_000_000,
+            Tier::Thorough => 10_000_000,
         }
     }
     fn heartbeat(&self) -> u64 {
